@@ -4,6 +4,7 @@
      boundaries (so 65535 as u2 meets 65536 as u4, values compare across widths), both argument orders by construction.
 (ii) every fraction s/u with 1<=u<=U, 0<=s<=u, in three interleavings, rotating through the dtype pairs.
 (iii) arrays of other dtypes are rejected.
+(iv) large arrays (sizes around powers of two up to 2^17+1, thorough 2^20+1) in seven fixed overlap patterns, expected values from counting formulas.
 Oracle: exact Fraction rounded once to binary32 by integer arithmetic (refmodel.f32_bits_of_fraction).
 """
 import itertools
@@ -42,6 +43,8 @@ def plan(tier, seed):
 	nsh = 32
 	tasks += [('t_fractions', dict(U=U, shard=i, nshards=nsh, seed=seed)) for i in range(nsh)]
 	tasks.append(('t_reject', dict()))
+	for part in range(4):
+		tasks.append(('t_large', dict(part=part, nparts=4, tier=tier)))
 	return tasks
 
 
@@ -130,6 +133,46 @@ def t_fractions(U, shard, nshards, seed):
 	return sh
 
 
+def t_large(part, nparts, tier):
+	"""Sizes around powers of two up to 2^17+1 (thorough 2^20+1) in fixed overlap patterns: a size-keyed shortcut or a narrow counter would show here.
+	Expected values come from counting formulas (exact rationals), not from materialised Python sets."""
+	import numpy as np
+	from fractions import Fraction
+	from gambit.metric import jaccarddist
+	sh = Shard()
+	sizes = [1000, 1023, 1024, 1025, 4095, 4096, 4097, 32767, 32768, 65535, 65536, 65537, 100000, (1 << 17) + 1]
+	if tier != 'quick':
+		sizes += [(1 << 18) - 1, (1 << 19) + 3, (1 << 20) + 1]
+	ci = 0
+	for n in sizes:
+		base = np.arange(n, dtype='u8')
+		patterns = {
+			'equal': (base, base, Fraction(0)),
+			'shift1': (base, base + 1, Fraction(2, n + 1)),
+			'evens-vs-all': (base[::2], base, Fraction(n - len(base[::2]), n)),
+			'disjoint': (base, base + n, Fraction(1)),
+			'half-overlap': (base, base + n // 2, Fraction(2 * (n // 2), n + n // 2)),
+			'one-extra': (base, np.append(base, n + 5), Fraction(1, n + 1)),
+			'empty-vs-large': (base[:0], base, Fraction(1)),
+		}
+		for name, (a, b, frac) in patterns.items():
+			for da, db in (('u8', 'u8'), ('u4', 'i8'), ('i4', 'u4')):
+				ci += 1
+				if ci % nparts != part:
+					continue
+				exp = R.f32_bits_of_fraction(frac)
+				for x, y, dx, dy in ((a, b, da, db), (b, a, db, da)):
+					got = f32bits(jaccarddist(x.astype(dx), y.astype(dy)))
+					sh.evals += 1
+					if got != exp:
+						sh.violation('jaccarddist-large', dict(n=n, pattern=name, da=dx, db=dy), exp, got)
+				sh.nontrivial += 1
+				sh.count('large_pairs')
+				sh.outcome(['large', exp])
+	sh.sample(dict(family='large', sizes=sizes, patterns=list(patterns)))
+	return sh
+
+
 def t_reject():
 	sh = Shard()
 	import numpy as np
@@ -168,6 +211,7 @@ def finalize(agg, tier):
 	agg.require('mixed_width_pairs', 1000)
 	agg.require('merge_ends_with_one_array_exhausted', 1000)
 	agg.require('rejected', 10)
+	agg.require('large_pairs', 50)
 	if len(agg.outcomes) < 1000:
 		from mc.core import Vacuous
 		raise Vacuous(f'only {len(agg.outcomes)} distinct result bit patterns')
@@ -175,6 +219,8 @@ def finalize(agg, tier):
 
 def replay(case, kind=None):
 	sh = Shard()
+	if 'pattern' in case:
+		return [v for part in range(4) for v in t_large(part, 4, 'thorough').violations if v['case'] == case]
 	if 'A' in case:
 		check_pair(sh, case['A'], case['B'], case['da'], case['db'])
 	else:
